@@ -728,3 +728,111 @@ def ed_call(fn, a):
     with warnings.catch_warnings(), contextlib.redirect_stdout(io.StringIO()):
         warnings.simplefilter("ignore")
         return fn(a["d1"], a["d2"], verbose=a["verbose"])
+
+
+# ---- pipefunc/map/_run_info.py::_compare_to_previous_run_info (C05 / C12: may this request continue the folder's run?) --
+# map(cleanup=False) asks this function; it refuses (ValueError) exactly when the folder holds a run description and
+# that description cannot be read, or differs in internal shapes, MapSpecs or shapes, or inputs / defaults are
+# *decidedly* different (equal_dicts == False); an undecided comparison (None) continues.  Nothing is written here.
+from pyvc.types import TTuple  # noqa: E402
+OldRunV = TRec("OldRunV", {"internal_shapes": TObj, "mapspecs_as_strings": TObj, "shapes": TObj, "inputs": TObj, "defaults": TObj})
+PathFV = TRec("PathFV", {"pid": TObj})
+PathFV.identity = "pid"
+PipeCmpV = TRec("PipeCmpV", {"pid": TObj, "mapspecs_as_strings": TObj, "defaults": TObj})
+PipeCmpV.identity = "pid"
+DShapesU = TDict(TStr, TObj)
+
+cmp_path = Contract(f"{RI}::RunInfo.path", params={"run_folder": TObj}, returns=PathFV, trusted=True, pure=True, static=True,
+                    note="where the run description of a folder lives")
+cmp_is_file = Contract(f"{RI}::PathFV.is_file", params={"self": PathFV}, returns=TBool, trusted=True, pure=True,
+                       note="file system query")
+cmp_load = Contract(f"{RI}::RunInfo.load", params={"run_folder": TObj}, returns=OldRunV, trusted=True, pure=True, static=True,
+                    raises=[("Exception", lambda S, a: S.uf("spec:load-fails", TBool, a.run_folder) if S.symbolic else False)],
+                    note="the recorded run description; where reading it fails is uninterpreted")
+cmp_cis = Contract(f"{RI}::_construct_internal_shapes", params={"internal_shapes": TOpt(DShapesU), "pipeline": PipeCmpV},
+                   returns=TObj, trusted=True, pure=True,
+                   note="here only a function of its arguments; its own contract is proved (C01)")
+cmp_map_shapes = Contract("pipefunc/map/_shapes.py::map_shapes",
+                          params={"pipeline": PipeCmpV, "inputs": TObj, "internal_shapes": TObj}, returns=TTuple([TObj, TObj]),
+                          trusted=True, pure=True,
+                          ensures=lambda S, a, r, post: ({"shapes are a function of the arguments": r.t[0].t == S.uf(
+                              "spec:map_shapes", TObj, a.pipeline, a.inputs, a.internal_shapes).t} if S.symbolic else {}),
+                          note="the shapes implied by the inputs (C08's contracts)")
+cmp_equal_dicts = Contract(f"{UT}::equal_dicts", params={"d1": TObj, "d2": TObj, "verbose": TBool}, defaults={"verbose": False},
+                           returns=TOpt(TBool), trusted=True, pure=True,
+                           ensures=lambda S, a, r, post: ({"a function of the two dicts": r.t == S.uf(
+                               "spec:equal_dicts", TOpt(TBool), a.d1, a.d2).t} if S.symbolic else {}),
+                           note="here only a function of the two dicts (verbose only prints); its own contract is proved above")
+cmp_print = Contract("builtins::print", params={"msg": TStr}, returns=TObj, trusted=True, pure=True, note="diagnostic output")
+
+
+def _cmp_parts(S, a):
+    """(file present, load fails, shapes differ, mapspecs differ, map shapes differ, inputs verdict, defaults verdict)."""
+    if S.symbolic:
+        file = S.uf("fn:PathFV.is_file", TBool, S.uf("fn:RunInfo.path", PathFV, a.run_folder))
+        fails = S.uf("spec:load-fails", TBool, a.run_folder)
+        old = S.uf("fn:RunInfo.load", OldRunV, a.run_folder)
+        nis = S.uf("fn:_construct_internal_shapes", TObj, a.internal_shapes, a.pipeline)
+        shp = S.uf("spec:map_shapes", TObj, a.pipeline, a.inputs, nis)
+        ei = S.uf("spec:equal_dicts", TOpt(TBool), a.inputs, old.inputs)
+        ed = S.uf("spec:equal_dicts", TOpt(TBool), a.pipeline.defaults, old.defaults)
+        return (file, fails, S.not_(S.eq(nis, old.internal_shapes)),
+                S.not_(S.eq(a.pipeline.mapspecs_as_strings, old.mapspecs_as_strings)), S.not_(S.eq(shp, old.shapes)), ei, ed)
+    sc = a.run_folder  # (bounded rung: the folder object carries the scenario)
+    return (sc.has_file, sc.load_fails, sc.internal_differ, sc.mapspecs_differ, sc.shapes_differ, sc.inputs_verdict,
+            sc.defaults_verdict)
+
+
+def _cmp_refuses(S, a):
+    file, fails, d_int, d_ms, d_shp, ei, ed = _cmp_parts(S, a)
+    is_false = (lambda v: S.and_(S.not_(S.is_none(v)), lambda: S.not_(S.some(v)))) if S.symbolic else (lambda v: v is False)
+    is_true = (lambda v: S.and_(S.not_(S.is_none(v)), lambda: S.some(v))) if S.symbolic else (lambda v: v is True)
+    return S.and_(file, lambda: S.or_(fails, lambda: S.and_(S.not_(fails), lambda: S.or_(
+        d_int, d_ms, d_shp, lambda: is_false(ei), lambda: S.and_(is_true(ei), lambda: is_false(ed))))))
+
+
+compare_to_previous = Contract(
+    f"{RI}::_compare_to_previous_run_info",
+    params={"pipeline": PipeCmpV, "run_folder": TObj, "inputs": TObj, "internal_shapes": TOpt(DShapesU)},
+    defaults={"internal_shapes": None}, returns=None, raises=[("ValueError", _cmp_refuses)],
+)
+COMPARE_PREVIOUS = [cmp_path, cmp_is_file, cmp_load, cmp_cis, cmp_map_shapes, cmp_equal_dicts, cmp_print, compare_to_previous]
+
+
+def cmp_gen(rng, tier):
+    from types import SimpleNamespace as NS
+    for q in range(400 if tier == "quick" else 4000):
+        sc = NS(has_file=rng.random() < 0.85, load_fails=rng.random() < 0.15, internal_differ=rng.random() < 0.2,
+                mapspecs_differ=rng.random() < 0.2, shapes_differ=rng.random() < 0.2,
+                inputs_verdict=rng.choice((True, True, False, None)), defaults_verdict=rng.choice((True, True, False, None)), q=q)
+        yield {"pipeline": NS(pid=q, mapspecs_as_strings=("ms", q), defaults=("defaults", q)), "run_folder": sc,
+               "inputs": ("inputs", q), "internal_shapes": None if rng.random() < 0.5 else {"y": (3,)}}
+
+
+def cmp_call(fn, a):
+    import contextlib
+    import io
+    from types import SimpleNamespace as NS
+    import pipefunc.map._run_info as R
+    sc = a["run_folder"]
+    old = NS(internal_shapes=("cis", sc.q, sc.internal_differ), shapes=("shapes", sc.q, sc.shapes_differ),
+             mapspecs_as_strings=("ms", sc.q) if not sc.mapspecs_differ else ("ms-other", sc.q),
+             inputs=("old-inputs", sc.q), defaults=("old-defaults", sc.q))
+
+    def load(folder):
+        if folder.load_fails:
+            raise OSError("cannot read run_info.json")
+        return old
+
+    def eq(d1, d2, verbose=False):
+        return sc.inputs_verdict if d1 == ("inputs", sc.q) else sc.defaults_verdict
+    saved = (R.RunInfo, R._construct_internal_shapes, R.map_shapes, R.equal_dicts)
+    R.RunInfo = NS(path=lambda folder: NS(is_file=lambda: folder.has_file), load=load)
+    R._construct_internal_shapes = lambda given, pipeline: ("cis", sc.q, False)
+    R.map_shapes = lambda pipeline, inputs, nis: (("shapes", sc.q, False), None)
+    R.equal_dicts = eq
+    try:
+        with contextlib.redirect_stdout(io.StringIO()):
+            return fn(a["pipeline"], sc, a["inputs"], a["internal_shapes"])
+    finally:
+        R.RunInfo, R._construct_internal_shapes, R.map_shapes, R.equal_dicts = saved
